@@ -605,6 +605,7 @@ type target struct {
 	addr *Term  // cell address or array base ref
 	lo, hi *Term // optional element range (BV64 indices relative to base), nil = all
 	name string // ghost
+	fld  int    // elemfield: field index within the element struct
 }
 
 func (fr *Frame) loopKey(n *unode, l *Loop) string {
@@ -662,6 +663,11 @@ func (fr *Frame) enterCutLoop(n *unode, l *Loop, s *State, g *Term, phis []*ssa.
 	for _, inv := range invs {
 		t := fr.evalClauseAt(inv, s, l, nil)
 		x.assume(g, t)
+	}
+	if fr.contract != nil && l.Ordinal > 0 {
+		for _, lm := range fr.contract.LoopLemmas[l.Ordinal] {
+			fr.applyLemma(lm, s, g, l, nil)
+		}
 	}
 	key := fr.loopKey(n, l)
 	if fr.loopHdrState == nil {
@@ -804,6 +810,11 @@ func (fr *Frame) backEdge(n *unode, e *uedge, s *State, g *Term) {
 	if fr.contract != nil && l.Ordinal > 0 {
 		invs = fr.contract.LoopInv[l.Ordinal]
 		dec = fr.contract.LoopDec[l.Ordinal]
+	}
+	if fr.contract != nil && l.Ordinal > 0 {
+		for _, lm := range fr.contract.LoopLemmas[l.Ordinal] {
+			fr.applyLemma(lm, ts, g, l, nil)
+		}
 	}
 	for i, inv := range invs {
 		t := fr.evalClauseAt(inv, ts, l, nil)
@@ -1098,6 +1109,13 @@ func (fr *Frame) inTargets(r *Term, ts []target) *Term {
 				d = c.And(d, c.BVCmp("bvule", t.lo, idx), c.BVCmp("bvult", idx, t.hi))
 			}
 			ds = append(ds, d)
+		case "elemfield":
+			// r == &base[idx].field  for some idx in [lo, hi)
+			p := c.RPath(r)
+			pp := c.Sel("pfld_par", "Path", p)
+			idx := c.Sel("pelem_idx", SBV(64), pp)
+			ds = append(ds, c.And(c.Eq(c.RRoot(r), c.RRoot(t.addr)), c.App("is-pfld", SBool, p), c.Eq(c.Sel("pfld_idx", SInt, p), c.Int(int64(t.fld))),
+				c.App("is-pelem", SBool, pp), c.Eq(c.Sel("pelem_par", "Path", pp), c.RPath(t.addr)), c.BVCmp("bvule", t.lo, idx), c.BVCmp("bvult", idx, t.hi)))
 		case "sort":
 			return c.True()
 		}
